@@ -185,6 +185,9 @@ func propC17(o *propOpts) *propResult {
 				var n int
 				var d string
 				if p := safely(func() { n, d = c17Check(root, pm) }); p != nil {
+					// a panic out of Walk / Inspect / Preorder (e.g. the runtime's "range function continued iteration after function
+					// for loop body returned false" when Preorder yields again after the consumer stopped) is a failed traversal
+					res.fail("panic:"+kindName(root)+":"+fmt.Sprint(pm), s, e.name, fmt.Sprintf("traversal panicked: %v", p))
 					continue
 				}
 				res.eval(fmt.Sprintf("%s|%s|%d", e.name, s, pm), n >= 5, func() any { return map[string]any{"entry": e.name, "input": s, "nodes": n, "prune": pm} })
@@ -203,7 +206,9 @@ func propC17(o *propOpts) *propResult {
 		if len(roots) > 0 {
 			for _, rs := range [][]ast.Node{roots, {roots[0], roots[len(roots)-1]}} {
 				var d string
-				if p := safely(func() { _, d = c17Many(rs) }); p == nil && d != "" {
+				if p := safely(func() { _, d = c17Many(rs) }); p != nil {
+					res.fail("manypanic:"+kindName(roots[0]), s, e.name, fmt.Sprintf("traversal (*Many) panicked: %v", p))
+				} else if d != "" {
 					res.fail("many:"+kindName(roots[0]), s, e.name, d)
 				}
 			}
